@@ -4,10 +4,13 @@
 (* machines over an arbitrary (lazily chosen, memoised) table of per-cutoff*)
 (* answers: K[c] = get_knee on the prefix 0..c (L-method), G[c] = argmin   *)
 (* on the suffix from c (DFDT).  C09's termination clauses.                *)
-(*   Guard = TRUE : Refinement.original stops when a knee value is         *)
+(*   Guard = "visited" : Refinement.original stops when a knee value is    *)
 (*                  revisited (repaired code).                             *)
-(*   Guard = FALSE: the pinned rule - ends only when two consecutive knees *)
-(*                  are equal; TLC exhibits the 2-cycle (negative).        *)
+(*   Guard = "none"    : the pinned rule - ends only when two consecutive  *)
+(*                  knees are equal; TLC exhibits the 2-cycle (negative).  *)
+(*   Guard = "previous": stops when the new knee equals the knee before    *)
+(*                  the last one (a 2-cycle guard); TLC exhibits a cycle   *)
+(*                  of length 3 (negative; seeded change C09-5).           *)
 (***************************************************************************)
 EXTENDS DetectorProps, TLC
 CONSTANTS N, Limits, Modes, Guard
@@ -30,7 +33,7 @@ LStep == /\ pc = "loop" /\ mode # "dfdt" /\ cur # last /\ ~done
               /\ IF mode = "adjusted" THEN cutoff' = Max2(limit, (k + cur) \div 2) /\ done' = FALSE /\ seen' = seen
                  ELSE IF mode = "original"
                       THEN /\ cutoff' = Max2(limit, Min2(2 * k, n))
-                           /\ done' = (Guard /\ k \in seen) /\ seen' = seen \cup {k}
+                           /\ done' = ((Guard = "visited" /\ k \in seen) \/ (Guard = "previous" /\ k = last)) /\ seen' = seen \cup {k}
                       ELSE cutoff' = cutoff /\ done' = TRUE /\ seen' = seen
          /\ UNCHANGED <<n, mode, limit, pc>>
 LEnd == /\ pc = "loop" /\ mode # "dfdt" /\ (cur = last \/ done)
